@@ -12,7 +12,9 @@ PROPS["C16"] = dict(
                "Exploration is the right level: ids x flags x header byte strings is unbounded, the oracle is cheap, and "
                "the defects of this kind sit in particular flag bytes and malformed spellings that breadth reaches.",
     technique="inject->extract round trip + strict reference reader on the injected carrier + two-sided differential "
-              "reference extractors on structured and raw header bytes; rapidcheck and libFuzzer",
+              "reference extractors on structured and raw header bytes (headers present / empty / absent, blank-padded "
+              "values, X-B3-Flags next to the multi headers) + direct calls of the public FromHex helpers against the "
+              "same reference; rapidcheck and libFuzzer",
     rule="Cases are choice streams decoded into (span context, flags byte, carrier state) or header strings; the raw "
          "targets take the stream as the header bytes.",
     assumptions=[
@@ -25,6 +27,22 @@ PROPS["C16"] = dict(
         "reference derives or return the caller's context",
         "a malformed or gray b3 header next to usable X-B3-* headers may be rejected, or fall back to the multi headers; "
         "a documented b3 header always wins",
+        "blanks (the C isspace set) at the ends of an id field - which is where a header value begins and ends - are "
+        "an either-way region: the statement and both documents are silent, the W3C propagator of the same repository "
+        "trims its header, so a reader may install the ids that are left after trimming or return the caller's "
+        "context; a blank between the digits leaves no id and must not install anything",
+        "an installed context carries nothing but the sampling decision in its flags byte (value 0x00 or 0x01) and a "
+        "non-null empty trace state: neither header format has a field for another W3C flag or for trace state, and "
+        "Jaeger's debug / firehose bits are not W3C flags (the statement itself only promises the decision; the "
+        "repository's comment in b3_propagator.h 'other flag bits must not leak' is the ground for the byte)",
+        "a X-B3-Flags header (named by the B3 document, not by the statement) never changes the ids; with the value "
+        "'1' (debug, implies accept) a reader may report an otherwise unsampled context as sampled",
+        "an absent header (null view from the carrier) and a header with an empty value are both 'missing'",
+        "the public static helpers TraceIdFromHex / SpanIdFromHex / TraceFlagsFromHex called directly: documented "
+        "spellings give exactly the value, other hex spellings the value or the zero id, an over-long value that does "
+        "not fit is left to the sanitizers; arguments holding a non-hex byte are NOT generated at present (held back "
+        "as candidate C16-fromhex-nonhex, see proposed_fixes/): when generated, the zero id - the only way such a "
+        "helper can say 'no id' and what Extract tests after the call - is expected",
         "Inject must write a canonical header of its own format (what a strict reader of the documents accepts and "
         "decodes to the same ids and sampling decision); X-B3-Sampled is '0' or '1'",
         "returning the caller's context unchanged is observed as Context::operator== plus an untouched span slot",
@@ -38,6 +56,7 @@ PROPS["C16"] = dict(
         run("b3-single-bytes", "c16_rc", "b3_single_bytes", "rc", dict(procs=1, cases=10000), dict(procs=1, cases=60000)),
         run("b3-multi-bytes", "c16_rc", "b3_multi_bytes", "rc", dict(procs=1, cases=10000), dict(procs=1, cases=60000)),
         run("jaeger-bytes", "c16_rc", "jaeger_bytes", "rc", dict(procs=1, cases=10000), dict(procs=1, cases=60000)),
+        run("helpers", "c16_rc", "b3_helpers", "rc", dict(procs=1, cases=10000), dict(procs=1, cases=60000)),
         run("b3-single-fuzz", "c16_fuzz", "b3_single_bytes", "fuzz", dict(procs=2, cases=160000, max_len=160),
             dict(procs=3, cases=1500000, max_len=300), replay_bin="c16_rc"),
         run("b3-multi-fuzz", "c16_fuzz", "b3_multi_bytes", "fuzz", dict(procs=2, cases=150000, max_len=220),
